@@ -35,6 +35,20 @@ def graph(k):
                          field(5, "optional", ST(n("Mp"), True))])
     d[n("Top")] = struct([field(1, "default", ST(n("Mp"), True)), field(2, "default", ST(n("Hd"), False)),
                           field(3, "default", L(ST(n("Rq2"), True)))])
+    # the same named 64-bit integer type read as an enum by one struct and as a plain i64 by another
+    td = "TdI64_%d" % k
+    d[n("En")] = struct([field(1, "default", dict(T("enum"), gotype=td, ann=td)), field(2, "default", L(dict(T("enum"), gotype=td, ann=td)))])
+    d[n("Ei")] = struct([field(1, "default", dict(T("i64"), gotype=td, ann="i64")), field(2, "default", L(dict(T("i64"), gotype=td, ann="i64")))])
+    # a cycle that reaches an unsupported member: X -> A -> {B, Bad}, B -> A, Y -> B
+    bad = {"id": 2, "key": "2", "req": "default", "t": {"k": "i32", "ptr": False, "gotype": "uint32"}, "nocopy": False,
+           "name": list(b"F2"), "rawtag": 'frugal:"2,default"', "opaque": True}
+    d[n("Bd")] = struct([field(1, "default", T("i32")), bad])
+    d[n("BA")] = struct([field(1, "default", ST(n("BB"), True)), field(2, "default", ST(n("Bd"), True))])
+    d[n("BB")] = struct([field(1, "default", ST(n("BA"), True))])
+    d[n("BX")] = struct([field(1, "default", ST(n("BA"), True))])
+    d[n("BY")] = struct([field(1, "default", ST(n("BB"), True))])
+    for x in ("Bd", "BA", "BB", "BX", "BY"):
+        d[n(x)]["invalid"] = True
     return d
 
 
@@ -46,18 +60,21 @@ def run(prop, tier, seed, work):
     defs = {}
     for k in range(ncopies):
         defs.update(graph(k))
-    U.with_defaults(defs)
+    U.with_defaults({k: v for k, v in defs.items() if not v.get("invalid")})
     defs_path = vlib.write_defs(work, defs)
     # reference-encoded messages (and mutants) for copy 0's types; other copies get the same
     # bytes since their schemas are identical up to names
-    base = ["In", "Rq", "Rq2", "Hd", "Mp", "Top"]
+    base = ["In", "Rq", "Rq2", "Hd", "Mp", "Top", "En", "Ei"]
+    badtypes = ["BX", "BY", "BA", "BB", "Bd"]
     cases = []
     vals = {}
     for b in base:
         s = "%s_0" % b
         vs = list(U.struct_variants(s, defs, [0, 1, 2], [0, 1, 3]))
-        rng.shuffle(vs)
-        vs = vs[:6]
+        head = [x for x in vs if x[0] in ("base", "1=2", "1=3", "z1=2")]     # full-first and sparse-first containers of field 1
+        rest = [x for x in vs if x not in head]
+        rng.shuffle(rest)
+        vs = (head + rest)[:6]
         vals[b] = vs
         for i, (lbl, v) in enumerate(vs):
             cases.append({"cid": "%s|%d|ok" % (b, i), "w": s, "val": v, "ord": ["asc", "desc", "rot", "evod"][i % 4], "trail": [], "mut": "none"})
@@ -80,6 +97,10 @@ def run(prop, tier, seed, work):
         for j in range(length):
             b = order[j % len(order)] if j < len(order) else rng.choice(base)
             op = rng.random()
+            if rng.random() < 0.12:
+                # a call on a type that reaches an unsupported member: rejected, whatever happened before
+                steps.append({"op": "reject", "ty": n(rng.choice(badtypes)), "entry": rng.choice(["size", "encode", "decode"]), "arg": "ptr", "class": "cycle", "repeat": 1})
+                continue
             if op < 0.30:
                 steps.append({"op": "decode", "ty": n(b), "in": rng.choice(okmsgs[b]), "dest": rng.choice(["fresh", "zero"])})
             elif op < 0.50:
@@ -103,13 +124,28 @@ def run(prop, tier, seed, work):
                         steps.append({"op": "decode", "ty": n(b), "from": len(steps) - 1, "dest": "fresh", "orig": vi})
         sid = "C07-seq-%d" % k
         scen.append({"sid": sid, "prop": prop, "vals": svals, "steps": steps, "tags": [], "dkey": sid})
+    # systematic: every truncation of a message, each followed by complete messages of the same type
+    # (what a failed decode leaves in the pools must not show in the next result)
+    kcopy = ncopies - 1
+    for b in base:
+        steps = []
+        goods = okmsgs[b]
+        for i, bad in enumerate(badmsgs[b]):
+            # after every truncation, every complete message once (each directly behind a failure at least once)
+            for gi, g in enumerate(goods):
+                if (i + gi) % 3 == 0 or len(badmsgs[b]) < 150:
+                    steps.append({"op": "decode", "ty": "%s_%d" % (b, kcopy), "in": bad, "dest": "fresh"})
+                    steps.append({"op": "decode", "ty": "%s_%d" % (b, kcopy), "in": g, "dest": "fresh"})
+        for i in range(0, len(steps), 120):
+            sid = "C07-failok-%s-%d" % (b, i)
+            scen.append({"sid": sid, "prop": prop, "vals": [], "steps": steps[i:i + 120], "tags": [], "dkey": sid})
     suite.run_batches(res, work, [Batch("history", defs, scen, env={"GOMAXPROCS": "1"})], want_props=ALLPROPS)
     return suite.finish(res, RULE, ASSUME)
 
 
 # in a history scenario a wrong result of any kind is a dependence on history (the same calls
 # pass when made first), so every clause counts
-ALLPROPS = {"C01", "C02", "C03", "C04", "C05", "C07", "C09", "C10", "C11", "C16"}
+ALLPROPS = {"C01", "C02", "C03", "C04", "C05", "C07", "C09", "C10", "C11", "C13", "C16"}
 
 
 def rename(v, frm, to):
